@@ -21,7 +21,7 @@ from mcx import geom, sched
 
 PID = "C15"
 RULE = (
-    "for every scenario (5 refinement inputs, 2 locate inputs, 4 stored sequences incl. equal time stamps and empty frames, with/without "
+    "for every scenario (7 refinement inputs incl. an empty candidate list and caller-supplied optimiser options, 4 locate inputs incl. an empty image, 4 stored sequences incl. equal time stamps and empty frames, with/without "
     "refinement, time course and track list) x worker count k in {2..n+1, auto}: every completion order of the n tasks on k FIFO workers "
     "(depth-first over choice sequences, default-first; count = k!*k^(n-k) for the library's one-task-per-item map, asserted for the "
     "enumerator on a trivial function); all call histories of length <= 2 (3 thorough) over (scenario, k in {1,2}) run in a freshly forked "
@@ -64,6 +64,11 @@ def scenarios(tier):
     out["refine-fit"] = {"api": "refine", "drops": DROPS5[:n], "kwargs": {"vmin": None, "vmax": None, "adjust_values": True}, "shift": 0.25, "affine": [2.0, -0.5]}
     out["refine-sph"] = {"api": "refine", "drops": DROPS5[:n][::-1], "kwargs": {}, "shift": 0.2, "cls": "spherical"}
     out["refine-nowidth"] = {"api": "refine", "drops": DROPS5[1:n], "kwargs": {}, "shift": 0.3, "cls": "diffuse-nowidth"}
+    out["refine-none"] = {"api": "refine", "drops": [], "kwargs": {}, "shift": 0.0, "field_drops": DROPS5[:2]}
+    out["refine-lsq"] = {"api": "refine", "drops": DROPS5[:n], "kwargs": {"vmin": None, "vmax": None, "adjust_values": True, "least_squares_params": {"max_nfev": 400}},
+                         "shift": 0.3, "contrast": [1.0, 0.6, 1.5, 0.8, 1.2]}
+    out["locate-empty"] = {"api": "locate", "drops": [], "kwargs": {"refine": True}}
+    out["locate-one"] = {"api": "locate", "drops": DROPS5[2:3], "kwargs": {"refine": True, "modes": 1}}
     out["locate-std"] = {"api": "locate", "drops": DROPS5[:n], "kwargs": {"refine": True}}
     out["locate-modes"] = {"api": "locate", "drops": DROPS5[:n], "kwargs": {"refine": True, "modes": 2, "minimal_radius": 1.0, "refine_args": {"tolerance": 1e-6}}}
     seq = ["A", "B", "E", "C", "D"][:n] if n == 5 else ["A", "B", "E", "C"]
@@ -76,11 +81,13 @@ def scenarios(tier):
     return out
 
 
-def _field(drops, affine=None):
+def _field(drops, affine=None, contrast=None):
     from droplets import DiffuseDroplet, Emulsion
 
     grid = geom.make_grid(GRID2)
     f = Emulsion([DiffuseDroplet(np.array(c, float), R, w) for c, R, w in drops]).get_phasefield(grid) if drops else None
+    if contrast and drops:  # every droplet with its own intensity (so automatically determined levels differ per droplet)
+        f = sum(DiffuseDroplet(np.array(c, float), R, w).get_phase_field(grid) * a for (c, R, w), a in zip(drops, contrast))
     if f is None:
         from pde import ScalarField
 
@@ -95,7 +102,7 @@ def build(sc):
     from droplets import DiffuseDroplet, SphericalDroplet
 
     if sc["api"] == "refine":
-        field = _field(sc["drops"], sc.get("affine"))
+        field = _field(sc.get("field_drops", sc["drops"]), sc.get("affine"), sc.get("contrast"))
         cands = []
         for i, (c, R, w) in enumerate(sc["drops"]):
             pos = np.array(c, float) + sc["shift"] * np.array([1.0, -0.7]) * (1 + 0.3 * i)
@@ -261,7 +268,7 @@ def setup(tier, seed):
 
 
 def ks_for(n):
-    return list(range(2, n + 2)) + ["auto"]
+    return sorted(set([2, 3] + list(range(2, n + 2)))) + ["auto"]
 
 
 def ntasks(sc):
